@@ -522,7 +522,9 @@ def shrink(prop, f, binaries):
         q = f.cmd
         changed = True
         rounds = 0
-        while changed and rounds < 40 and len(best) > 1:
+        t_start = time.time()
+        budget = float(os.environ.get("VERIF_SHRINK_SECONDS", "45"))
+        while changed and rounds < 40 and len(best) > 1 and time.time() - t_start < budget:
             changed = False
             rounds += 1
             for cut in (len(best) // 2, len(best) // 4, 1):
